@@ -22,9 +22,11 @@ cd /repo && git apply $D/patch.diff || { echo "PATCH DOES NOT APPLY"; exit 3; }
 PKGS=$(git diff --name-only | xargs -n1 dirname | sort -u | sed 's|^|./|' | tr '\n' ' ')
 echo "== repo tests of touched packages: $PKGS"; go test -vet=off -count=1 $PKGS 2>&1 | tail -5 | tee $D/repo_tests.log
 cd /verif
+# evidence and replays of runs against a seeded tree go to a scratch root, never into /verif/evidence
+SR=/tmp/seedroot; mkdir -p $SR/evidence $SR/replays; cp /verif/known_findings.json $SR/
 RES=""
 for c in "$@"; do
-  echo "== check $c quick"; ./run.sh $c quick > $D/check_$c.log 2>&1; E=$?; grep -E "VIOLATION|HARNESS-ERROR|violation signature" $D/check_$c.log | head -5; echo "exit=$E"; RES="$RES $c:$E"
+  echo "== check $c quick"; VERIF_ROOT_OVERRIDE=$SR ./run.sh $c quick > $D/check_$c.log 2>&1; E=$?; grep -E "VIOLATION|HARNESS-ERROR|violation signature" $D/check_$c.log | head -5; echo "exit=$E"; RES="$RES $c:$E"
 done
 git -C /repo checkout -- . ; git -C /repo status --short
 echo "RESULT $NAME demo_with=$W demo_without=$WO checks:$RES" | tee $D/result.txt
